@@ -160,6 +160,46 @@ theorem parsedOf_lods_length (a : AbstractModel) (h : WF a = true) (v : View)
   have h3 := W.lc3; have := W.lods3
   omega
 
+/-- in the model parsed from a canonical file every mesh starts at its first sub-mesh's offset -/
+theorem starts_initial (a : AbstractModel) (h : WF a = true) (hcan : Canonical a = true) (v : View)
+    (hv : view a = some v) : StartsFromSubmesh (parsedOf a v) := by
+  have W := wf_facts a h
+  have hrep : Rep a (parsedOf a v) := rep_initial a h v hv
+  intro i hi d hd
+  have hi' : i < a.lodCount.toNat := hi
+  have hi3 : i < a.lods.length := by have := W.lc3; have := W.lods3; omega
+  obtain ⟨l, hl⟩ : ∃ l, a.lods[i]? = some l := ⟨a.lods[i], List.getElem?_eq_getElem hi3⟩
+  have hrow : (parsedOf a v).modelData.lods[i]? = some (lodRowOf a i l) := lods_row a i l hl
+  obtain ⟨e1, e2, e3⟩ := rep_lod_range h hrep hl hrow rfl
+  rw [e1] at hd ⊢
+  rw [e3] at hd
+  rw [e2]
+  obtain ⟨mesh, hm⟩ : ∃ mesh, l.meshes[d]? = some mesh := ⟨l.meshes[d], List.getElem?_eq_getElem hd⟩
+  have hmr : (parsedOf a v).modelData.meshes[psum meshCountOf a.lods i + d]? =
+      some (meshRowOf a i l d mesh) := meshes_row a i l hl d mesh hm
+  have hat : meshAt (parsedOf a v).modelData.meshes (psum meshCountOf a.lods i + d) =
+      meshRowOf a i l d mesh := by simp only [meshAt, hmr, Option.getD_some]
+  rw [hat]
+  have hle := subBase_le a i l hl d mesh hm
+  have hsi : (meshRowOf a i l d mesh).submeshIndex.toNat = subBase a i l d :=
+    toUInt16_toNat _ (by have := W.nSub; unfold subBase at hle; omega)
+  have hso : (a.lods.all fun l => startsOk 0 l.meshes) = true := by
+    simp only [Canonical, Bool.and_eq_true, and_assoc] at hcan
+    exact hcan.2.2.2.2.2.1
+  have hsl := List.all_eq_true.mp hso l (mem_of_getElem? hl)
+  obtain ⟨s, rest, hs1, hs2⟩ := startsOk_getElem? l.meshes 0 d mesh hsl hm
+  have hget := submeshes_getElem? a i l hl d mesh hm 0 (by rw [hs1]; simp)
+  rw [Nat.add_zero, hs1] at hget
+  simp only [List.getElem?_cons_zero] at hget
+  have hsub : (parsedOf a v).modelData.submeshes = (modelData a).submeshes := rfl
+  simp only [firstSub, hsub, hsi, hget, Option.getD_some]
+  apply UInt32.toNat_inj.mp
+  rw [hs2, Nat.zero_add]
+  have hsl' := index_slice a i l hl d mesh hm
+  have hlen := hsl'.length_le
+  have hfl := W.fileLen
+  exact toUInt32_toNat _ (by omega)
+
 /-- **parse ∘ write ∘ edits ∘ parse** for histories of `replace_vertices` / `remove_shape_meshes` -/
 theorem edit_then_parse (a : AbstractModel) (h : WF a = true) (hcan : Canonical a = true)
     (v0 : View) (hv0 : view a = some v0) (es : List AEdit) (hne : es ≠ [])
